@@ -365,6 +365,28 @@ func classes() []class {
 			e.data.Remove(c, &pb.RemoveRequest{DatasetId: e.dsId, Id: hx.Id(950 + i).Bytes()})
 		}
 	})
+	// the batch item's level field is part of the public message: whatever a client puts there
+	for _, lv := range []int32{-1, -2, -7, math.MinInt32, 31, 1 << 20, math.MaxInt32} {
+		lv := lv
+		add(fmt.Sprintf("DataManager.Batch*+PartitionBatch*:item-level-%d", lv), func(e *env) {
+			c, f := e.ctx()
+			defer f()
+			// every partition holds items already (the first vertex of an index is stored whatever its level)
+			for i := 0; i < 6; i++ {
+				e.data.Insert(c, &pb.InsertRequest{DatasetId: e.dsId, Id: hx.Id(1200 + i).Bytes(), Value: vec(float32(i), 2, 3, 4)})
+			}
+			for i := 0; i < 4; i++ {
+				it := []*pb.BatchItem{{Id: hx.Id(1210 + i).Bytes(), Value: vec(float32(i), 5, 5, 5), Level: lv}}
+				e.data.PartitionBatchInsert(c, &pb.PartitionBatchRequest{DatasetId: e.dsId, PartitionId: e.ds.Partitions[i%2].Id, Items: it})
+			}
+			e.data.BatchInsert(c, &pb.BatchRequest{DatasetId: e.dsId, Items: []*pb.BatchItem{{Id: hx.Id(1220).Bytes(), Value: vec(9, 5, 5, 5), Level: lv}, {Id: hx.Id(1221).Bytes(), Value: vec(8, 5, 5, 5), Level: lv}}})
+			e.data.BatchUpdate(c, &pb.BatchRequest{DatasetId: e.dsId, Items: []*pb.BatchItem{{Id: hx.Id(1200).Bytes(), Value: vec(7, 5, 5, 5), Level: lv}}})
+			for i := 0; i < 2; i++ {
+				e.data.PartitionBatchUpdate(c, &pb.PartitionBatchRequest{DatasetId: e.dsId, PartitionId: e.ds.Partitions[i].Id, Items: []*pb.BatchItem{{Id: hx.Id(1201 + i).Bytes(), Value: vec(6, 5, 5, 5), Level: lv}}})
+			}
+			drain(e.srch.Search(c, &pb.SearchRequest{DatasetId: e.dsId, Query: vec(1, 5, 5, 5), K: 5}))
+		})
+	}
 	// nothing hostile at all: the baseline of the rig
 	add("baseline:valid-requests-only", func(e *env) {
 		c, f := e.ctx()
